@@ -5,6 +5,8 @@ pub mod common;
 pub mod c01;
 pub mod c02;
 pub mod c03;
+pub mod c04;
+pub mod c05;
 pub mod c06;
 pub mod c18;
 pub mod c19;
@@ -20,6 +22,8 @@ pub fn all() -> Vec<Prop> {
         Prop { id: "C01", level: "exploration", run: c01::run },
         Prop { id: "C02", level: "exploration", run: c02::run },
         Prop { id: "C03", level: "exploration", run: c03::run },
+        Prop { id: "C04", level: "exploration", run: c04::run },
+        Prop { id: "C05", level: "fault_enumeration", run: c05::run },
         Prop { id: "C06", level: "exploration", run: c06::run },
         Prop { id: "C18", level: "exploration", run: c18::run },
         Prop { id: "C19", level: "exploration", run: c19::run },
